@@ -315,10 +315,11 @@ def shrink_jobs(tier):
     jobs = []
     for kind, kp in kinds:
         tag = "-".join("%s%d" % (k[0] + k[-1], v) for k, v in kp.items())
-        for ld in range(L + 1):
+        Lk = min(L, 3) if kind == "BUP" else L  # arbitrary buckets: paths multiply quickly
+        for ld in range(Lk + 1):
             for w in range(ld + 1):
-                jobs.append(J("shrink%s-%s-ld%d-w%d" % (kind, tag, ld, w), "zzH_shrink" + kind, params=dict(kp, L=L, ld=ld, w=w), uf_mul=True))
-    return jobs, {"Shrink of the parsers (re-basing of the search structures)": "arbitrary parser state with len(Data) 0..%d, arbitrary tables / buckets, ShrinkSize symbolic; "
+                jobs.append(J("shrink%s-%s-ld%d-w%d" % (kind, tag, ld, w), "zzH_shrink" + kind, params=dict(kp, L=Lk, ld=ld, w=w), uf_mul=True))
+    return jobs, {"Shrink of the parsers (re-basing of the search structures)": "arbitrary parser state with len(Data) 0..%d (BUP: 0..3), arbitrary tables / buckets, ShrinkSize symbolic; "
                   "Shrink, then one Parse checked like C01-C03; kinds %s" % (L, [k + str(p) for k, p in kinds])}
 
 
